@@ -148,3 +148,41 @@ Proof. exact reader_contract_holds. Qed.
 
 Theorem C01_writer_contract_holds : writer_contract Sim.
 Proof. exact writer_contract_holds. Qed.
+
+(* ---- the same headline theorems for the definitions REGENERATED FROM THE GO SOURCE on every run
+        (coq/Gen/Funcs.v, written by tools/gotrans from /repo's current protocol/thrift/binary.go;
+        Proofs/GenEquiv.v proves each generated function equal to the hand model above).  A change of
+        any of these 59 Go functions changes Gen/Funcs.v and breaks its equivalence lemma — a proof
+        obligation of this property — whether or not the random correspondence run reaches it.
+        [en] is the package-level switch spanCacheEnable (either value). ---- *)
+From GV Require Import Lib.GoSem Gen.Funcs Proofs.GenCorollaries.
+
+Theorem C01_gen_r_enc : forall en it rest,
+  item_ok it = true -> wf rest ->
+  g_r_item en (kind_of it) (enc it ++ rest) = Ok (it, Z.of_N (len (enc it)), gnil).
+Proof. exact g_r_enc. Qed.
+
+Theorem C01_gen_read_i32_enc : forall v rest,
+  in_signed 32 v -> g_thrift_ReadI32 (be 4 (u32 v) ++ rest) = Ok (v, 4, gnil)%Z.
+Proof. exact g_read_i32_enc. Qed.
+
+Theorem C01_gen_bool_decodes : forall x rest, g_thrift_ReadBool (x :: rest) = Ok (x =? 1, 1%Z, gnil).
+Proof. exact g_bool_decodes. Qed.
+
+Theorem C01_gen_r_total : forall en k b, wf b -> safe (g_r_item en k b).
+Proof. exact g_r_total. Qed.
+
+Theorem C01_gen_r_bounded : forall en k b it n,
+  wf b -> g_r_item en k b = Ok (it, n, gnil) -> (0 <= n <= glen b)%Z.
+Proof. exact g_r_bounded. Qed.
+
+Theorem C01_gen_a_eq_enc : forall buf it, item_ok it = true -> g_a_item buf it = Ok (buf ++ enc it).
+Proof. exact g_a_eq_enc. Qed.
+
+Theorem C01_gen_len_eq : forall it, item_ok it = true -> g_l_item it = Ok (Z.of_N (len (enc it))).
+Proof. exact g_len_eq. Qed.
+
+Theorem C01_gen_w_eq_enc : forall buf it,
+  item_ok it = true -> len (enc it) <= len buf ->
+  g_w_item buf it = Ok (enc it ++ drop (len (enc it)) buf, Z.of_N (len (enc it))).
+Proof. exact g_w_eq_enc. Qed.
